@@ -108,9 +108,30 @@ def failing_dump(ctx, obj, fmt, case, workdir, good_bytes, preexisting, main_var
     audit = ctx.audit
     if audit is not None:
         audit.begin(workdir)
+    # how the caller SPELLS the destination is its business too: a str, a pathlib.Path, the file-system encoding of the path
+    spelling = case.get("dest_spelling")
+    if spelling is None:
+        spelling = ("str", "str", "pathlib", "str", "bytes", "str", "relative")[ctx._c18_n % 7]
+        case["dest_spelling"] = spelling
+    ctx.count("dest-spelled-" + spelling)
+    dest_arg = dest
+    cwd = None
+    if spelling == "pathlib":
+        import pathlib
+        dest_arg = pathlib.Path(dest)
+    elif spelling == "bytes":
+        dest_arg = os.fsencode(dest)
+    elif spelling == "relative":
+        cwd = os.getcwd()
+        os.chdir(workdir)
+        dest_arg = os.path.join(".", dest_name)
     arm()
     try:
-        do_dump(obj, fmt, dest, main_variant)
+        try:
+            do_dump(obj, fmt, dest_arg, main_variant)
+        finally:
+            if cwd is not None:
+                os.chdir(cwd)
         outcome, exc = "succeeded", None
     except Exception as e:
         outcome, exc = "failed", e
